@@ -546,6 +546,8 @@ func (ex *Exec) modelDraws(m map[string]uint64) []map[string]any {
 			rec["value"] = bs
 			rec["text"] = fmt.Sprintf("%q", string(pr))
 			rec["cap"] = d.Cap
+		case "opaque":
+			rec["value"] = []int64{int64(m[d.Vars[0].name]), int64(m[d.Vars[1].name])}
 		case "choice":
 			rec["value"] = d.Val
 		}
